@@ -448,7 +448,9 @@ Fixpoint fc_expr (imm : bool) (e : expr) {struct e} : bool * list code :=
          | x :: xs =>
              let '(i1, c1) := fc_expr i x in
              let '(i2, c2) := go i1 xs in (i2, c1 ++ c2)
-         end) imm es
+         end) false es            (* the flag is cleared as for an array literal (repair of D79; the pinned
+                                     commit passed [imm] on: a whole array was copied into a structure
+                                     literal that is an argument) *)
   | EParen x | EAutocoerce x | ECast x => fc_expr imm x
   | EDeref r t =>
       let '(i1, c1) := fc_ref imm r in (i1, check_value_use imm t ++ c1)
